@@ -782,6 +782,21 @@ impl NetcodeServer {
         self.pending_clients.values().map(|c| Self::verif_view(0, c)).collect()
     }
 
+    /// Fills the first `count` slots of the connect token table with synthetic entries (MAC = the slot number in
+    /// little endian, zero padded; time = `base` + slot number nanoseconds; the given address), as if that many
+    /// other tokens had been presented before.
+    pub fn verif_fill_token_entries(&mut self, count: usize, base: Duration, address: SocketAddr) {
+        for i in 0..count.min(self.connect_token_entries.len()) {
+            let mut mac = [0u8; NETCODE_MAC_BYTES];
+            mac[..8].copy_from_slice(&(i as u64).to_le_bytes());
+            self.connect_token_entries[i] = Some(ConnectTokenEntry {
+                time: base + Duration::from_nanos(i as u64),
+                address,
+                mac,
+            });
+        }
+    }
+
     /// Number of used connect token entries.
     pub fn verif_token_entries(&self) -> usize {
         self.connect_token_entries.iter().filter(|e| e.is_some()).count()
